@@ -75,6 +75,8 @@ mod query_one;
 #[cfg(any(feature = "row-serialize", feature = "column-serialize"))]
 pub mod serialize;
 mod take;
+#[cfg(hecs_verif)]
+pub mod verif;
 mod world;
 
 pub use archetype::{Archetype, ArchetypeColumn, ArchetypeColumnMut, TypeIdMap, TypeInfo};
